@@ -150,8 +150,8 @@ def c06c(prog, R, rid="C06.c"):
     r.floor(9)
 
 
-def c06d(prog, R, L):
-    r = R.rule("C06.d", "flush / registration protocol", "L,O")
+def c06d(prog, R, L, rid="C06.d"):
+    r = R.rule(rid, "flush / registration protocol", "L,O")
     f = prog.need(A.TREE_REGISTER_TABLES)
     acq = L.acquisitions(f)
     order = [cls for (_c, cls, _m) in sorted(acq, key=lambda x: x[0].bb)]
